@@ -7,6 +7,24 @@ COMMON_TB = [
 ]
 
 PROPS = {
+    "C14": {
+        "lean_targets": ["BA.Props.C14"],
+        "harness": "c14",
+        "translators": ["extract_constants.py"],
+        "trusted_base": COMMON_TB + [
+            "the block store under VestingFunds is ideal in the model (a tail CID is the list it points to); the correspondence runs go through the real MemoryBlockstore and CBOR",
+            "in the withdrawal model the results of the transfer to the beneficiary and of power's UpdatePledgeTotal are environment inputs (booleans); the harness reads them from the invocation trace of the real message",
+            "MinerFunds keeps only the fields WithdrawBalance reads or writes; the harness re-synchronises the model state from the real miner state before each withdrawal (per-step refinement, not a whole-trace simulation of the miner)",
+        ],
+        "assumptions": [
+            "vesting specs have a positive quantisation unit and a positive step (SpecOk; the code only ever passes REWARD_VESTING_SPEC); strict epoch order additionally needs step >= unit",
+            "table entries are compared up to zero-amount entries (they hold no funds; VestingFunds::load itself hides a head drawn down to zero)",
+            "forced_unlock_exact is stated for targets >= 0 (callers pass fee debt / penalties, which are non-negative); conservation and well-formedness hold for any target",
+            "withdraw_bound assumes fee_debt >= 0 in the pre-state (asserted by check_balance_invariants after every miner message)",
+            "i64 epoch overflow is out of scope (DESIGN §5)",
+            "actor-level runs plant pre_commit_deposits / initial_pledge / early_terminations with mutate_state instead of onboarding sectors; known finding F1 (UpdatePledgeTotal exit 20 on a network without other pledge) is counted as inconclusive for C14 and attributed to C03",
+        ],
+    },
     "C16": {
         "lean_targets": ["BA.Props.C16"],
         "harness": "c16",
